@@ -127,6 +127,9 @@ func checkC10(c *Ctx) {
 	c10Wire(c)
 	c10DuringResponse(c)
 	c10StalledSubscriber(c)
+	queuedEvents(c, "C10")
+	eventDuringFlush(c, "C10")
+	c10RangeChange(c)
 	duplexStress(c, "C10") // events and responses written to one connection at the same time must stay decryptable: a garbled event is a lost event
 	n := c.Pick(32, 1500)
 	type res struct{ line, impl string }
@@ -755,4 +758,67 @@ wait:
 			fmt.Sprintf("%d changes made, each notified to the reading subscriber", changes), fmt.Sprintf("SetValue number %d never returned; the reading subscriber received %d events; another controller's GET: %v", made+1, got, aerr))
 	}
 	c.Count(id, true, "stream:stalled-subscriber", fmt.Sprintf("stalled-subscriber:blocked=%v", blocked))
+}
+
+// c10RangeChange: the application narrows the range of a characteristic at run time (SetMaxValue / SetMinValue) so that
+// the current value has to move. That is a change of the value like any other: the subscribed controllers are told.
+func c10RangeChange(c *Ctx) {
+	id := "range-change#0"
+	if c.Skip(id) {
+		return
+	}
+	r := c.CaseRng("range-change", 0)
+	lamp := accessory.NewLightbulb(accessory.Info{Name: "Range"})
+	b := characteristic.NewBrightness()
+	lamp.Lightbulb.AddCharacteristic(b.Characteristic)
+	b.SetValue(80)
+	acc, err := startE2E(c.ScratchDir(), "00102003", false, lamp.Accessory)
+	if err != nil {
+		c.Violate("transport does not start", id, nil, "started", err.Error())
+		return
+	}
+	defer acc.Stop()
+	ident := newRefIdentity(r, "ctrl-range")
+	setup, _ := acc.Dial()
+	sr := refPairSetup(r, setup.Post(), "001-02-003", ident)
+	setup.Close()
+	cl, err := acc.Dial()
+	if sr.ErrAt != "" || err != nil {
+		c.Violate("reference controller cannot pair", id, nil, "paired", sr.ErrAt)
+		return
+	}
+	defer cl.Close()
+	vr := refPairVerify(r, cl.Post(), ident, sr.AccLTPK)
+	if vr.Shared == nil {
+		c.Violate("paired reference controller cannot verify", id, nil, "verified", vr.ErrAt)
+		return
+	}
+	cl.Upgrade(vr.Shared)
+	sub := fmt.Sprintf(`{"characteristics":[{"aid":%d,"iid":%d,"ev":true}]}`, lamp.Accessory.ID, b.ID)
+	if m, err := cl.Do("PUT", "/characteristics", "application/hap+json", []byte(sub)); err != nil || m.Status != 204 {
+		c.Violate("subscription request of a verified connection on an observable characteristic is not accepted", id, nil, "204", fmt.Sprint(err, m))
+		return
+	}
+	for _, st := range []struct {
+		what string
+		do   func()
+		want int
+	}{
+		{"SetMaxValue(25) with the value at 80", func() { b.SetMaxValue(25) }, 25},
+		{"SetMinValue(20) after SetValue(5)", func() { b.SetValue(5); cl.Drain(200 * time.Millisecond); cl.Events = nil; b.SetMinValue(20) }, 20},
+	} {
+		cl.Events = nil
+		st.do()
+		cl.Drain(400 * time.Millisecond)
+		got := []string{}
+		for _, e := range cl.Events {
+			got = append(got, trunc(string(bytes.TrimSpace(e.Body)), 100))
+		}
+		wantBody := fmt.Sprintf(`"value":%d`, st.want)
+		if b.GetValue() != st.want || len(got) != 1 || !strings.Contains(got[0], wantBody) {
+			c.Violate("a change of the value caused by a changed range is not notified to the subscribed controller exactly once", id,
+				map[string]interface{}{"application_calls": st.what}, fmt.Sprintf("value %d and one EVENT carrying it", st.want), fmt.Sprintf("value %d, events %v", b.GetValue(), got))
+		}
+	}
+	c.Count(id, true, "stream:range-change")
 }
